@@ -256,7 +256,8 @@ fn evidence_for(prop: &str) -> Evidence {
         extra: vec![],
         min_distinct: min,
         min_counters: match prop {
-            "C02" => vec![("medium_comparisons", 200), ("library_remounts", 50), ("files_compared_on_medium", 500)],
+            "C01" => vec![("huge_file_scenarios", 10), ("huge_file_writes_across_the_limit", 5)],
+            "C02" => vec![("medium_comparisons", 200), ("library_remounts", 50), ("files_compared_on_medium", 500), ("huge_file_media_confirmed", 10)],
             "C03" => vec![("fsck_after_call", 1000)],
             "C04" => vec![("block_writes_total", 5000)],
             "C05" => vec![("leak_checks", 200), ("write=DiskFull", 20)],
@@ -448,8 +449,8 @@ pub fn run_model_check(ctx: &Ctx, prop: &str, quick_n: usize, thorough_n: usize)
             }
             Err(er) => rep.inconclusive.push(format!("history {}: {}", i, er)),
         }
-        if prop == "C01" && i % 25 == 0 {
-            super::huge::scenario(ctx.seed, i as u64, rep);
+        if (prop == "C01" || prop == "C02") && i % 25 == 0 {
+            super::huge::scenario(prop, ctx.seed, i as u64, rep);
         }
         if prop == "C02" && i % 40 == 0 {
             e5_scenario(ctx.seed, i as u64, rep);
